@@ -85,10 +85,43 @@ def run(ctx, ck) -> None:
     arrow = has_len_ne(pfacts, "split('->')", '2')
     ck.expect('E3', commas, parse, 'anything but exactly two operands (one comma) is refused', 'subscripts without exactly one comma are no longer refused', instance='two operands')
     ck.expect('E3', arrow, parse, 'implicit mode (no ->) is refused', 'implicit-mode subscripts are no longer refused', instance='explicit mode')
-    # raw (unsubstituted) facts: the sets are popped later, so compare on variable names
+    # role discovery (local names are irrelevant): the three parts of the parsed subscripts, their letter sets,
+    # the contracted / free letter sets and the expected input layout
     from ..paths import exception_name as _exc
     from ..terms import atom_facts
 
+    parts = None
+    for st in rew.body:
+        if isinstance(st, ast.Assign) and isinstance(st.targets[0], ast.Tuple) and len(st.targets[0].elts) == 3 and isinstance(st.value, ast.Call) and ast.unparse(st.value.func).endswith('_parse_subscripts'):
+            parts = [e.id for e in st.targets[0].elts if isinstance(e, ast.Name)]
+    if parts is None or len(parts) != 3:
+        ck.incomplete('E3', rew, 'the rewriter no longer unpacks (blocks, input, result) subscripts from _parse_subscripts')
+        return
+    lefts_n, rights_n, results_n = parts
+
+    def set_of(name):
+        return ('call', ('var', 'set'), (('call', ('attr', ('var', name), 'replace'), (('const', "'...'"), ('const', "''")), ()),), ())
+
+    set_names: dict = {}
+    derived: dict = {}
+    for st in rew.body:
+        if isinstance(st, ast.Assign) and isinstance(st.targets[0], ast.Name):
+            t = term(st.value)
+            for role, n in (('L', lefts_n), ('R', rights_n), ('O', results_n)):
+                if t == set_of(n) and role not in set_names:
+                    set_names[role] = st.targets[0].id
+            if t[0] == 'binop' and t[1] in ('&', '-') and st.targets[0].id not in derived.values():
+                derived[st.targets[0].id] = t
+    if len(set_names) != 3:
+        ck.incomplete('E3', rew, 'cannot identify the three letter sets of the subscripts')
+        return
+    Ls, Rs, Os = (('var', set_names[k]) for k in ('L', 'R', 'O'))
+    want_sum = {('binop', '&', Ls, ('binop', '-', Rs, Os)), ('binop', '-', ('binop', '&', Ls, Rs), Os), ('binop', '-', ('binop', '&', Rs, Ls), Os)}
+    want_tr = {('binop', '&', Ls, ('binop', '-', Os, Rs)), ('binop', '-', ('binop', '&', Ls, Os), Rs), ('binop', '-', ('binop', '&', Os, Ls), Rs)}
+    sum_name = next((n for n, t in derived.items() if t in want_sum), None)
+    tr_name = next((n for n, t in derived.items() if t in want_tr), None)
+    ck.expect('E3', sum_name is not None, rew, 'the contracted letter is in both operands and not in the result', f'no set is computed as blocks & input - result (found {[show(t) for t in derived.values()]})', instance='contracted letter')
+    ck.expect('E3', tr_name is not None, rew, 'the free letter is in the blocks and the result and not in the input', f'no set is computed as blocks & result - input (found {[show(t) for t in derived.values()]})', instance='free letter')
     raw = []
     for p in function_paths(rew):
         if p.exit == 'raise' and _exc(p.node) == 'ValueError':
@@ -96,34 +129,25 @@ def run(ctx, ck) -> None:
             if conds:
                 ex, pol = conds[-1]
                 raw.append(atom_facts(ex, pol, {}))
-    len_sum = ('call', ('var', 'len'), (('var', 'sum_axis_as_set'),), ())
-    len_tr = ('call', ('var', 'len'), (('var', 'transpose_axis_as_set'),), ())
+    len_sum = ('call', ('var', 'len'), (('var', sum_name),), ())
+    len_tr = ('call', ('var', 'len'), (('var', tr_name),), ())
     one_sum = any(('ne', frozenset({len_sum, ('const', '1')})) in fs for fs in raw)
     none_t = any(('eq', frozenset({len_tr, ('const', '0')})) in fs or ('lt', len_tr, ('const', '1')) in fs for fs in raw)
     many_t = any(('lt', ('const', '1'), len_tr) in fs or ('le', ('const', '2'), len_tr) in fs for fs in raw)
     ck.expect('E3', one_sum, rew, 'contraction count != 1 is refused', 'subscripts without exactly one contracted axis are no longer refused', instance='one contracted axis')
     ck.expect('E3', none_t, rew, 'no free block axis is refused', 'subscripts without a free block axis are no longer refused', instance='free axis present')
     ck.expect('E3', many_t, rew, 'several free block axes are refused', 'subscripts with several free block axes are no longer refused', instance='single free axis')
-    # the definitions of the two sets
-    pre = path_env(next(p for p in function_paths(rew) if p.exit == 'return'))
-    def set_of(name):
-        return ('call', ('var', 'set'), (('call', ('attr', ('var', name), 'replace'), (('const', "'...'"), ('const', "''")), ()),), ())
-    l_, r_, o_ = set_of('lefts'), set_of('rights'), set_of('results')
-    want_sum = {('binop', '&', l_, ('binop', '-', r_, o_)), ('binop', '-', ('binop', '&', l_, r_), o_)}
-    want_tr = {('binop', '&', l_, ('binop', '-', o_, r_)), ('binop', '-', ('binop', '&', l_, o_), r_)}
-    # lefts is rebound later: evaluate the set definitions right after parsing
-    e0: dict = {}
-    from ..paths import Path
-
-    for st in rew.body:
-        if isinstance(st, ast.Assign) and isinstance(st.targets[0], ast.Name) and st.targets[0].id in ('lefts_as_set', 'rights_as_set', 'results_as_set', 'sum_axis_as_set', 'transpose_axis_as_set'):
-            e0 = path_env(Path([('stmt', st)]), e0)
-    ck.expect('E3', e0.get('sum_axis_as_set') in want_sum, rew, 'the contracted letter is in both operands and not in the result', f'the contracted axis is computed as {show(e0.get("sum_axis_as_set"))}', instance='contracted letter')
-    ck.expect('E3', e0.get('transpose_axis_as_set') in want_tr, rew, 'the free letter is in the blocks and the result and not in the input', f'the free axis is computed as {show(e0.get("transpose_axis_as_set"))}', instance='free letter')
-    # layout guard: an exact, ordered string comparison expected_results != rights
-    layout = any(('ne', frozenset({('var', 'expected_results'), ('var', 'rights')})) in fs for fs in raw)
+    # layout guard: ordered string comparison of the input subscripts with the expected layout (a join of a list built from the result)
+    layout = False
+    for fs in raw:
+        for f in fs:
+            if f[0] == 'ne' and ('var', rights_n) in f[1] and len(f[1]) == 2:
+                other = next(x for x in f[1] if x != ('var', rights_n))
+                if other[0] == 'var':
+                    d = next((st for st in rew.body if isinstance(st, ast.Assign) and isinstance(st.targets[0], ast.Name) and st.targets[0].id == other[1]), None)
+                    layout = d is not None and 'join' in ast.unparse(d.value)
     ck.expect('E3', layout, rew, 'the input layout must equal the output layout with the free letter replaced by the contracted one (ordered string comparison)',
-              'the layout guard `expected_results != rights` (an ordered comparison of the subscript strings) is gone or weakened: subscripts whose input and output axis orders differ are transposed incorrectly instead of being refused', instance='layout guard')
+              'the layout guard (an ordered `!=` comparison of the input subscripts with the expected layout string) is gone or weakened: subscripts whose input and output axis orders differ are transposed incorrectly instead of being refused', instance='layout guard')
     # the return is reached only after all guards
     rets = [p for p in function_paths(rew) if p.exit == 'return']
     ck.expect('E3', len(rets) == 1 and sum(1 for ev in rets[0].events if ev[0] == 'cond') >= 4, rew, 'the single return is dominated by all rejections',
